@@ -809,7 +809,21 @@ func (m *Machine) execIterate(fr *frame, s *Stmt) flow {
 				m.lastEvent = Event{"iterate-back", s}
 			}
 			fl := m.execBlock(fr, rd.Body, rd.BodyEnd, rd.BodyTerm)
-			if fl.c != cNormal {
+			switch fl.c {
+			case cNormal:
+			case cBreak:
+				if fl.target != s {
+					return fl
+				}
+				// m.lastEvent is the break statement; the variables are left empty at the
+				// position of the window that was being visited.
+				bind(pos, 0)
+				return flow{}
+			case cContinue:
+				if fl.target != s {
+					return fl
+				}
+			default:
 				return fl
 			}
 			pos += rd.Advance
